@@ -239,8 +239,9 @@ func (s *SamplerFactory) ClearDynsamplers() {
 
 	// Stop all shared dynsamplers
 	for _, entry := range s.sharedDynsamplers {
-		if stopper, ok := entry.dynsampler.(interface{ Stop() }); ok {
-			stopper.Stop()
+		// dynsampler-go's samplers declare Stop() error
+		if stopper, ok := entry.dynsampler.(interface{ Stop() error }); ok {
+			_ = stopper.Stop()
 		}
 	}
 
